@@ -5,9 +5,10 @@ CONSTANTS
     MaxAlter = 1
     TamperFields = {"resign", "prev", "epoch", "avk", "params", "msgEpoch", "nextAvk", "nextParams", "signedMsg", "sig", "kind", "genSig"}
     MsgModes = {"k", "d", "r"}
+    Twins = TRUE
     ForgeEpochs = {1, 2, 3, 4}
     Forge2Pars = {"p"}
-    ForgeKeys = {"H3", "H4", "A"}
+    ForgeKeys = {"H3", "H4", "A", "H3/s"}
     ForgePars = {"p", "q"}
     ForgeNextAvk = {"H4", "A"}
     ForgeNextPars = {"p", "q"}
